@@ -30,6 +30,7 @@ class ElectionRule:  # pragma: no cover
     method = None # one of ('meek', 'wigm', 'qpq'): underlying method for report formats
     E = None
     quota_name = "Quota"    # allow rule-specific override for eg "Threshold"
+    defeats_undeclared = False  # True if the rule defeats undeclared write-ins unconditionally (mpls)
 
     @classmethod
     def ruleNames(cls):
